@@ -481,6 +481,13 @@ func (c *Ctx) ruleR10c(rule string) {
 			for _, e := range wsErr {
 				ws = p.eval(e)
 			}
+			if !ssax.IsNilConst(errV) && p.eval(errV) != nsNonNil && !ssax.IsNilConst(p.resolve(r.Results[0])) && ws != nsNil {
+				// the sub-parser's results are handed on without knowing that it failed: if it succeeded, the mode
+				// violation recorded in wsErr is lost
+				bad = true
+				c.R.Violation(rule, name+" may succeed despite mode violation", name, c.P.InstrPos(r), "a path returns the sub-parser's node with an error that may be nil while the whitespace error is not known to be nil: a run that violates the mode (e.g. force-newline with an empty run) is accepted")
+				return
+			}
 			if ssax.IsNilConst(errV) {
 				// success: node must be the wrapped call's node, and the run must have satisfied the mode
 				if !isExtractOf(p.resolve(r.Results[0]), w, 0) {
@@ -508,7 +515,13 @@ func (c *Ctx) ruleR10d(rule string) {
 		}
 		pt, isPtr := fn.Signature.Recv().Type().(*types.Pointer)
 		if !isPtr {
-			continue // value receivers (NodeList delegates element-wise, EndNode is a no-op): judged by R07a/C07
+			// value receivers: a slice type delegates element-wise and a position-based type has nothing to move; a
+			// struct received by value would mutate a copy, so right-trimming would silently not move the node's end
+			if _, isStruct := fn.Signature.Recv().Type().Underlying().(*types.Struct); isStruct {
+				n++
+				c.R.Violation(rule, c.name(fn)+" on a value receiver", c.name(fn), c.P.Pos(fn.Pos()), "SetReaderPos is declared on a struct value receiver: it rewrites a copy, so a right-trimmed token keeps its old end and the whitespace after it is never skipped")
+			}
+			continue
 		}
 		n++
 		name := c.name(fn)
